@@ -4,6 +4,7 @@ import re
 from analysis.facts import strip_generics
 from analysis.pathinterp import enumerate_paths
 from analysis.guards import dominating_conditions
+from . import C01 as _C01, C03 as _C03
 
 EXPLANATION = (
     "Decided on Blocker::get_csp_directives (and the parse-side guard): (1) type gate — every path "
@@ -25,6 +26,10 @@ def check(run):
         run.guard("C15.1.type-gate", cfg, lambda: rule_type_gate(run, F, cfg))
         run.guard("C15.3.set-algebra", cfg, lambda: rule_sets(run, F, cfg))
         run.guard("C15.4.parse-guard", cfg, lambda: rule_parse(run, F, cfg))
+        b = run.borrow("C01", why="a multi-domain $csp rule must be stored under every one of its domain tokens")
+        run.guard("C15.via.C01.1.token-source", cfg, lambda: _C01.rule_store(b, F, cfg))
+        b2 = run.borrow("C03", why="a csp directive may contain '=' itself")
+        run.guard("C15.via.C03.7.option-split", cfg, lambda: _C03.rule_option_split(b2, F, cfg))
 
 
 def rule_type_gate(run, F, cfg):
